@@ -918,9 +918,9 @@ func run(c *lib.Ctx) {
 	c.Assume("StateDB.Get with MVCC enabled is `local.GetV(key, version)` behind an unexported enableMVCC; it is covered through SimpleMVCC.GetV over the same KVDB types and through the exported executor.AddMVCC/DelMVCC wrappers, not through a StateDB instance",
 		"GoMemDB/GoLevelDB iterators are trusted to order keys bytewise (decided by C06/C07)",
 		"db.LocalDB is wrapped the way executor.LocalDB wraps it (empty listing => ErrNotFound); LocalDB cannot store empty values, so on that backend every version writes >=1 key (a version without writes has an empty key-list record there and DelMVCC answers ErrNotFound: return values of DelMVCC are not part of the statement; for the same reason version 0 is never removed on that backend: SetVersionKV(hash,0) encodes Int64{0} as an empty value, which LocalDB reads as deleted, so GetVersion(hash of version 0) and DelMVCC(0) answer ErrNotFound there)")
-	nExt := c.N(1500, 30000)
-	nPlain := c.N(200, 5000)
-	nEmpty := c.N(150, 4000)
+	nExt := c.N(1500, 80000)
+	nPlain := c.N(200, 10000)
+	nEmpty := c.N(150, 8000)
 	type job struct {
 		stratum string
 		idx     int // global case index
